@@ -510,6 +510,28 @@ class Harness:
     def mk_sleeper(self, place):
         h = self
         kind = self.sc.get("sleeper_kind", "async")
+        if kind == "falsy":
+            # a callable sleeper object that happens to be falsy (defines __bool__/__len__): it is still the configured sleeper
+            if self.is_async:
+
+                class FalsyAsyncSleeper:
+                    def __bool__(self):
+                        return False
+
+                    async def __call__(self, s):
+                        await h.susp("sleeper")
+                        h.sleeper_body(place, s)
+
+                return FalsyAsyncSleeper()
+
+            class FalsySleeper:
+                def __len__(self):
+                    return 0
+
+                def __call__(self, s):
+                    h.sleeper_body(place, s)
+
+            return FalsySleeper()
         if self.is_async and kind in ("async", "lambda", "callable"):
 
             async def asl(s):
